@@ -58,8 +58,8 @@ CHECKS = {
    note="trusted: TLC, harness; one known finding: requests to an unordered destination register no timeout by design",
    technique="TLA+ action properties checked by TLC; TLC trace validation of the real executor"),
  "C16": dict(engine="Interchain", design_ref="DESIGN.md §3.5/3.6, §5 C16",
-   text="Gating half of C16: services and appchains are frozen / activated / logged out through real proposals and votes between IBTP traffic and restarts; an accepted request whose source service is not available violates C16_SourceAvailable, and the begin-failure decision must equal the destination gate (exists and available) (C16_DestGate). The lifecycle half (status machines of appchains, services, rules, roles, nodes) is checked in the Governance family.",
-   note="trusted: TLC, harness; blacklist permission not driven yet; relay-chain availability gates requests from / to another BitXHub (xhub scenarios)",
+   text="Gating half: services and appchains are frozen / activated / logged out through real proposals and votes between IBTP traffic and restarts; an accepted request whose source service is not available violates C16_SourceAvailable, and the begin-failure decision must equal the destination gate (exists and available; for another BitXHub: registered and available relay chain) (C16_DestGate); an approved freeze or logout of an appchain must leave none of its services usable (C16_ChainFreezeStopsServices). Lifecycle half: Lifecycle.tla transcribes the status machines of appchains (incl. relay chains) and services from the fsm.Events tables; after every block the status of every appchain and service is compared with the previous block: a change without a governance-capable transaction in the block, a change that is not an edge of the machine (blocks with one such transaction), or a logged-out object coming back violate C16_Lifecycle / C16_LoggedOutForever; lifecycle scenarios interleave registration, update, freeze, activate, logout proposals (approved / rejected, concluded in interleaved orders) of chains and services.",
+   note="trusted: TLC, harness; status machines of rules, roles and nodes are not transcribed (rules: only which rule is bound is observed; roles: C15); blacklist permission not driven yet",
    technique="TLA+ protocol machine gating clauses; TLC trace validation of the real executor"),
  "C01": dict(engine="Replicas", design_ref="DESIGN.md §3.8, §5 C01",
    text="Replicas.tla states agreement; ReplicasMC enumerates all placements of stop / start / view steps of 3 replicas over a chain. Every interchain scenario (random, group-heavy, timed; IBTP one-to-one and grouped, governance, transfers, failing transactions) is executed on a reference node and three perturbed real replicas (restart before every block + parallel proof goroutines; serial + view execution before every block; reopen right after genesis + random restarts), all fed byte-identical blocks; TLC compares block hash, parent, state / tx / receipt / timeout roots, every receipt and the ordered delivery / timeout / multi-tx metadata of every height.",
